@@ -168,7 +168,7 @@ def stage_walk(ctx, st):
             p = ctx.new_replay_path(name)
             with open(p, "w") as fh:
                 json.dump(dict(property=ctx.prop, stage=name, module=st["module"], alternative=chosen["_alt"], kind="unlisted-deviation", deviation=dev,
-                               init=hit["init"], actions=[s["act"] for s in hit["prefix"]] + [hit["act"]], observed=hit.get("observed")), fh, indent=1)
+                               init=hit["init"], actions=[s["act"] for s in (hit.get("prefix") or [])] + [hit["act"]], observed=hit.get("observed")), fh, indent=1)
             ctx.violations.append(p)
     if not good:
         for d in results[0]["divergences"]:
